@@ -107,7 +107,8 @@ class RuleClassModel(RecordModel):
     cls = this record.  Class-level well-formedness (DESIGN 5.6) is stated by the descriptors."""
 
     def isinstance_(self, ex, rec, c):
-        return z3.BoolVal(c.py in (object, type))
+        # a Rule class is a class (type) built by the metaclass LogicalType
+        return z3.BoolVal(c.py in (object, type) or getattr(c.py, "__name__", "") == "LogicalType")
 
     def getattr(self, ex, rec, name, node):
         if name not in rec.fields:
@@ -209,6 +210,7 @@ class APPLY:
     cases = {"with-converter": dict(self=TRANSFORMER, data=OBJ, t=TCLS, func=OBJ),
              "no-converter": dict(self=TRANSFORMER, data=OBJ, t=TCLS, func=NONE)}
     calls = "leaf"
+    replay = "apply"
     ghost_effect = {"work": 1}          # definitional: one conversion attempt per call (cost counter of C18)
     setup = staticmethod(_not_forward_ref)
     returns = dict(_APPLY_RET, exact_type_is_identity="implies(typeof(data) is t, result is data)")
@@ -223,6 +225,7 @@ class APPLY:
 class CALL:
     cases = {"any": dict(self=TRANSFORMER, data=OBJ, t=TCLS)}
     calls = "leaf"
+    replay = "call"
     ghost_effect = {"work": 1}
     leaf_methods = ["handle_unresolved"]
     setup = staticmethod(_not_forward_ref)
@@ -321,6 +324,8 @@ _THROW_LEN = "len(result) == {k}"
 _THROW_EL = "forall({k}, lambda i: %s and at(result, i) is %s)" % (_OK.format("i"), _CV.format("i"))
 _ERRS_SAME = "len(context.errors) == old(len(context.errors))"
 _ERRS_COUNT = "len(context.errors) == old(len(context.errors)) + {k} - " + _CNT.format("{k}")
+# no element out of nowhere: every element of the result is the conversion of an accepted element of the input
+_EXCL_SRC = "forall(len(result), lambda j: exists({k}, lambda i: %s and at(result, j) is %s))" % (_OK.format("i"), _CV.format("i"))
 _MONO_B = "0 <= {ck} and {ck} <= _k".format(ck=_CNT.format("_k"))
 _MONO = "forall(_k, lambda i: 0 <= {ci} and {ci} <= {ck} and implies({oki}, {ci} < {ck}))".format(
     ck=_CNT.format("_k"), ci=_CNT.format("i"), oki=_OK.format("i"))
@@ -372,12 +377,13 @@ class PARSE_SEQ_ARGS:
     result = LIST
     returns_by_case = _by_policy(
         {"exclude_length": _EXCL_LEN.format(k="len(value)"), "exclude_is_filter_map": _EXCL_EL.format(k="len(value)"),
-         "no_error_recorded": _ERRS_SAME},
+         "every_element_comes_from_an_accepted_one": _EXCL_SRC.format(k="len(value)"), "no_error_recorded": _ERRS_SAME},
         {"preserve_length": _PRES_LEN.format(k="len(value)"), "preserve_patches_offenders": _PRES_EL.format(k="len(value)"),
          "no_error_recorded": _ERRS_SAME},
         {"throw_length": _THROW_LEN.format(k="len(value)"), "throw_is_map": _THROW_EL.format(k="len(value)"),
          "no_error_recorded": _ERRS_SAME},
         {"collect_length": _EXCL_LEN.format(k="len(value)"), "collect_is_filter_map": _EXCL_EL.format(k="len(value)"),
+         "every_element_comes_from_an_accepted_one": _EXCL_SRC.format(k="len(value)"),
          "one_error_per_offender": _ERRS_COUNT.format(k="len(value)")})
     returns = {"fresh_result": "fresh(result)"}
     raises_by_case = {cn: ({"ParseError": {"only_on_an_offender": "exists(len(value), lambda i: not ok(value, %s, context, i))" % _T0}}
@@ -388,7 +394,8 @@ class PARSE_SEQ_ARGS:
     frame = ["value", "cls"]
     modifies = ["context.errors"]
     tags = {"fresh_result": ["C19", "C11"], "no_error_recorded": ["C10", "C11"], "one_error_per_offender": ["C10", "C11"],
-            "only_raises": ["C04"], "no_input_mutation": ["C19", "C11"], "Exception.policy_handles_every_offender": ["C11"]}
+            "only_raises": ["C04"], "no_input_mutation": ["C19", "C11"], "Exception.policy_handles_every_offender": ["C11"],
+            "every_element_comes_from_an_accepted_one": ["C01", "C11"]}
 
 
 def _seq_inv():
@@ -396,7 +403,7 @@ def _seq_inv():
     for cn in _seq_cases():
         pol = cn.split(",")[1]
         fm = {"length": _EXCL_LEN.format(k="_k"), "filter_map_prefix": _EXCL_EL.format(k="_k"),
-              "count_bounds": _MONO_B, "count_monotone": _MONO}
+              "count_bounds": _MONO_B, "count_monotone": _MONO, "sources": _EXCL_SRC.format(k="_k")}
         if pol == "exclude":
             inv[cn] = dict(fm, errors=_ERRS_SAME)
         elif pol == "preserve":
@@ -891,6 +898,7 @@ class RULE_PARSE:
     (the verdict is the same as fail-fast); C04: only ParseError escapes; the origin conversion failure
     is raised at once in both modes (the value could not even be typed)."""
     self_model = "RuleClass"
+    replay = "rule_parse"
     cases = _parse_cases()
     calls = "validator"
     requires = {"clean_context_on_entry": "context is None or (len(context.errors) == 0 and len(context.tmp_errors) == 0)"}
@@ -1058,3 +1066,88 @@ def _exact_on_well_typed(cls, value, context):
         return
     assert r is value, "result_is_the_input"
     assert forall(len(cls.__validators__), lambda i: vacc_at(cls, value, i)), "accepted_only_if_every_constraint_holds"
+
+
+# ------------------------------------------------------------------------------------ C01: conformance, one induction step per container kind
+
+@specfn("leaf_results_conform")
+def _leaf_results_conform(ex, fr, t, holder):
+    """INDUCTION HYPOTHESIS of C01 for one argument type t: whatever the conversion to t accepts, it turns into a value that
+    conforms to t (for a nested generic / data class this is the statement being proved, one level down; for a builtin it
+    is the type-conformance postcondition of its converter); a value whose type is exactly t conforms to t."""
+    nec, ndl = _mode(ex, holder)
+    x = z3.Const("x!ih", V)
+    tt = ex.box(t)
+    return VBool(z3.ForAll([x], z3.Implies(accepts_t(tt, x, nec, ndl), conf(converted_t(tt, x, nec, ndl), tt))))
+
+
+_SEQ_LEMMA_CASES = {
+    "list,exclude": dict(cls=RULE(__args__=Seq("tuple", nonempty=True), __arg_transformers__=Seq("tuple", nonempty=True)), value=LIST,
+                         context=CTX(invalid_items=Str("exclude"), collect_errors=BOOL)),
+    "list,throw": dict(cls=RULE(__args__=Seq("tuple", nonempty=True), __arg_transformers__=Seq("tuple", nonempty=True)), value=LIST,
+                       context=CTX(invalid_items=Str("throw"), collect_errors=FALSE, max_errors=NONE)),
+    "set,exclude": dict(cls=RULE(__args__=Seq("tuple", nonempty=True), __arg_transformers__=Seq("tuple", nonempty=True)), value=SET,
+                        context=CTX(invalid_items=Str("exclude"), collect_errors=BOOL)),
+}
+
+
+@lemma("C01_sequence_elements_conform", props=["C01"], cases=_SEQ_LEMMA_CASES)
+def _seq_elements_conform(cls, value, context):
+    """C01, induction step for sequences: if the element type's conversions yield conforming values (hypothesis), every
+    element of what _parse_seq_args returns conforms to the element type -- under `throw` and under `exclude` (`preserve`
+    is the documented unsafe option).  Uses only the CONTRACT of _parse_seq_args."""
+    assume(leaf_results_conform(cls.__args__[0], context))
+    try:
+        r = call("utype/parser/rule.py", "Rule._parse_seq_args", cls, value, context)
+    except ParseError:
+        return
+    assert forall(len(r), lambda j: conf(at(r, j), cls.__args__[0])), "every_element_conforms"
+
+
+@specfn("leaf_results_conform_at")
+def _leaf_results_conform_at(ex, fr, types, holder):
+    """the induction hypothesis for every prefix type of a tuple declaration"""
+    nec, ndl = _mode(ex, holder)
+    x = z3.Const("x!iht", V)
+    i = z3.Int("i!iht")
+    tt = z3.Select(types.arr, i)
+    return VBool(z3.ForAll([i, x], z3.Implies(z3.And(i >= 0, i < types.n, accepts_t(tt, x, nec, ndl)), conf(converted_t(tt, x, nec, ndl), tt))))
+
+
+@lemma("C01_tuple_prefix_conforms", props=["C01"],
+       cases={"throw,addition-none": dict(cls=RULE(**_TUP_RULE), value=TUPLE,
+                                          context=CTX(invalid_items=Str("throw"), addition=NONE, collect_errors=FALSE, max_errors=NONE)),
+              "exclude,addition-false": dict(cls=RULE(**_TUP_RULE), value=TUPLE,
+                                             context=CTX(invalid_items=Str("exclude"), addition=FALSE, collect_errors=FALSE, max_errors=NONE))})
+def _tuple_prefix_conforms(cls, value, context):
+    """C01, induction step for fixed-length tuples: item i of the result conforms to the i-th declared type"""
+    assume(len(cls.__args__) == len(cls.__arg_transformers__))
+    assume(leaf_results_conform_at(cls.__args__, context))
+    try:
+        r = call("utype/parser/rule.py", "Rule._parse_tuple_args", cls, value, context)
+    except ParseError:
+        return
+    assert len(r) == len(cls.__args__), "exactly_the_declared_items"
+    assert forall(len(cls.__args__), lambda i: conf(at(r, i), at(cls.__args__, i))), "every_item_conforms_to_its_type"
+
+
+_MAP_LEMMA_RULE = RULE(__args__=Seq("tuple"), __arg_transformers__=Seq("tuple"))
+
+
+@lemma("C01_mapping_entries_conform", props=["C01"],
+       cases={"kv,keys=throw,values=throw,fail-fast": dict(cls=_MAP_LEMMA_RULE, value=DICT,
+                                                           context=CTX(invalid_keys=Str("throw"), invalid_values=Str("throw"), collect_errors=FALSE, max_errors=NONE)),
+              "kv,keys=exclude,values=exclude,fail-fast": dict(cls=_MAP_LEMMA_RULE, value=DICT,
+                                                               context=CTX(invalid_keys=Str("exclude"), invalid_values=Str("exclude"), collect_errors=FALSE, max_errors=NONE))})
+def _mapping_entries_conform(cls, value, context):
+    """C01, induction step for mappings: every key of the result conforms to the key type and every value to the value type"""
+    assume(len(cls.__args__) == 2 and len(cls.__arg_transformers__) == 2)
+    assume(truthy(at(cls.__args__, 1)) and at(cls.__args__, 1) is not None)
+    assume(leaf_results_conform(at(cls.__args__, 0), context))
+    assume(leaf_results_conform(at(cls.__args__, 1), context))
+    try:
+        r = call("utype/parser/rule.py", "Rule._parse_map_args", cls, value, context)
+    except ParseError:
+        return
+    assert forall(len(r), lambda p: conf(mkey(r, p), at(cls.__args__, 0))), "every_key_conforms"
+    assert forall(len(r), lambda p: conf(mval(r, p), at(cls.__args__, 1))), "every_value_conforms"
